@@ -48,6 +48,9 @@ type op struct {
 	K string `json:"k"`           // prepare | commit | delete
 	N int    `json:"n"`           // namespace index into nsNames
 	V int    `json:"v,omitempty"` // prepare only: version, unique inside the history (1..)
+	// prepare only: 0 = valid configuration; 1..nsenv.BadKinds = a configuration
+	// that server.NewNamespace rejects (the prepare is expected to fail)
+	Bad int `json:"bad,omitempty"`
 }
 
 type histCase struct {
@@ -57,6 +60,9 @@ type histCase struct {
 }
 
 func (o op) String() string {
+	if o.K == kPrep && o.Bad > 0 {
+		return fmt.Sprintf("prepare(%s,v%d,BAD%d)", nsNames[o.N], o.V, o.Bad)
+	}
 	if o.K == kPrep {
 		return fmt.Sprintf("prepare(%s,v%d)", nsNames[o.N], o.V)
 	}
@@ -80,7 +86,11 @@ func genHist(t *rapid.T) histCase {
 		n := rapid.IntRange(1, 10).Draw(t, "len")
 		for i := 0; i < n; i++ {
 			k := rapid.SampledFrom([]string{kPrep, kPrep, kCommit, kCommit, kCommit, kDelete}).Draw(t, "k")
-			ops = append(ops, op{K: k, N: rapid.IntRange(0, c.Names-1).Draw(t, "n")})
+			o := op{K: k, N: rapid.IntRange(0, c.Names-1).Draw(t, "n")}
+			if k == kPrep && rapid.IntRange(0, 3).Draw(t, "bad") == 0 {
+				o.Bad = rapid.IntRange(1, nsenv.BadKinds).Draw(t, "badkind")
+			}
+			ops = append(ops, o)
 		}
 	default: // 1..3 administrators, each running a script of whole changes, interleaved
 		admins := mode
@@ -92,11 +102,15 @@ func genHist(t *rapid.T) histCase {
 				if rapid.IntRange(0, 2).Draw(t, "own") == 0 {
 					n = rapid.IntRange(0, c.Names-1).Draw(t, "n")
 				}
-				switch rapid.IntRange(0, 5).Draw(t, "task") {
+				switch rapid.IntRange(0, 7).Draw(t, "task") {
 				case 0: // delete
 					scripts[a] = append(scripts[a], op{K: kDelete, N: n})
 				case 1: // abandoned change (prepare failed elsewhere: no commit follows)
 					scripts[a] = append(scripts[a], op{K: kPrep, N: n})
+				case 6: // a configuration the proxy rejects; the administrator stops there
+					scripts[a] = append(scripts[a], op{K: kPrep, N: n, Bad: rapid.IntRange(1, nsenv.BadKinds).Draw(t, "badkind")})
+				case 7: // ... or sends the commit regardless
+					scripts[a] = append(scripts[a], op{K: kPrep, N: n, Bad: rapid.IntRange(1, nsenv.BadKinds).Draw(t, "badkind")}, op{K: kCommit, N: n})
 				default: // full change
 					scripts[a] = append(scripts[a], op{K: kPrep, N: n}, op{K: kCommit, N: n})
 				}
@@ -438,7 +452,7 @@ func run(c histCase) (o pbt.Outcome) {
 	}
 	maxV := 0
 	for _, x := range c.Ops {
-		if x.N < 0 || x.N >= c.Names || (x.K != kPrep && x.K != kCommit && x.K != kDelete) || x.V < 0 || x.V > 100 {
+		if x.N < 0 || x.N >= c.Names || (x.K != kPrep && x.K != kCommit && x.K != kDelete) || x.V < 0 || x.V > 100 || x.Bad < 0 || x.Bad > nsenv.BadKinds {
 			o.Skip = "malformed case"
 			return
 		}
@@ -496,6 +510,7 @@ func run(c histCase) (o pbt.Outcome) {
 	states := []state{active} // states[i] = specification state after i operations
 	fl := newFlawed()
 	effDelete := make([]bool, len(c.Ops))
+	prepOK := make([]bool, len(c.Ops)) // the prepare at this step returned nil
 
 	// readers
 	var (
@@ -564,11 +579,18 @@ func run(c histCase) (o pbt.Outcome) {
 		full := fmt.Sprintf("step %d %v of %v: %s", k, x, c.Ops, detail)
 		// classification: is this the known design defect?
 		if x.K == kCommit {
-			p := lastPrepare(c.Ops, k, x.N)
+			// last SUCCESSFUL prepare of this namespace; a rejected prepare writes nothing
+			p := -1
+			for j := k - 1; j >= 0; j-- {
+				if c.Ops[j].K == kPrep && c.Ops[j].N == x.N && prepOK[j] {
+					p = j
+					break
+				}
+			}
 			otherWrite, sameDelete := false, false
 			for j := p + 1; j < k; j++ {
 				y := c.Ops[j]
-				if y.N != x.N && (y.K == kPrep || effDelete[j]) {
+				if y.N != x.N && (y.K == kPrep && prepOK[j] || effDelete[j]) {
 					otherWrite = true
 				}
 				if y.N == x.N && effDelete[j] {
@@ -600,7 +622,11 @@ steps:
 		panicked := pbt.Catch(func() {
 			switch x.K {
 			case kPrep:
-				err = m.ReloadNamespacePrepare(nsenv.Config(nsNames[x.N], x.V))
+				if x.Bad > 0 {
+					err = m.ReloadNamespacePrepare(nsenv.BadConfig(nsNames[x.N], x.V, x.Bad))
+				} else {
+					err = m.ReloadNamespacePrepare(nsenv.Config(nsNames[x.N], x.V))
+				}
 			case kCommit:
 				err = m.ReloadNamespaceCommit(nsNames[x.N])
 			case kDelete:
@@ -613,10 +639,19 @@ steps:
 		before := active
 		switch x.K {
 		case kPrep:
+			// a prepare that fails changes nothing: the active configurations stay and what
+			// the last SUCCESSFUL prepare staged for the namespace stays pending
 			if err == nil && panicked == "" {
 				pending[x.N] = x.V
+				prepOK[k] = true
+				if x.Bad > 0 {
+					o.Labels = append(o.Labels, fmt.Sprintf("bad_config_%d_accepted", x.Bad))
+				}
 			} else {
 				o.Labels = append(o.Labels, "prepare_rejected")
+				if x.Bad == 0 {
+					o.Labels = append(o.Labels, "valid_config_rejected")
+				}
 			}
 		case kCommit:
 			if err == nil && panicked == "" {
@@ -688,6 +723,12 @@ steps:
 	}
 	if commitsOK > 0 {
 		o.Labels = append(o.Labels, "has_successful_commit")
+	}
+	for k, x := range c.Ops {
+		if x.K == kPrep && x.Bad > 0 && k < len(prepOK) && !prepOK[k] && k < validStates {
+			o.Labels = append(o.Labels, "has_failed_prepare")
+			break
+		}
 	}
 	if commitsRejected > 0 {
 		o.Labels = append(o.Labels, "has_rejected_commit")
@@ -849,7 +890,7 @@ func TestC31Sequential(t *testing.T) {
 		t.Skip("sequential histories are run by the plain build")
 	}
 	pbt.Run(t, pbt.Spec{ID: "C31", Sub: "sequential", Quick: 1000, Thorough: 5000,
-		Rule: "histories of <=12 prepare(n,version)/commit(n)/delete(n) over 2-3 namespaces: free sequences (1/5) or 1-3 administrators' scripts of whole changes (prepare+commit), abandoned prepares and deletes, interleaved in a drawn order; applied to a real server.Manager, namespace and credential views compared with the specification after every step; non-trivial = an operation on another namespace lies between a prepare and the next commit of the same namespace",
+		Rule: "histories of <=12 prepare(n,version)/commit(n)/delete(n) over 2-3 namespaces: free sequences (1/5) or 1-3 administrators' scripts of whole changes (prepare+commit), abandoned prepares, deletes and prepares of configurations that server.NewNamespace rejects (bad slow_sql_time, charset/collation mismatch, unknown default slice, shard rule on an unknown slice; with or without a commit sent afterwards), interleaved in a drawn order; a rejected prepare must change nothing (active stays, pending stays what the last successful prepare staged); applied to a real server.Manager, namespace and credential views compared with the specification after every step; non-trivial = an operation on another namespace lies between a prepare and the next commit of the same namespace",
 		Floor: 0.35}, genHist, checkSeq)
 }
 
